@@ -177,7 +177,7 @@ def work(item):
 
 LONG_QUICK = ("DPSK4(gray=False)", "PSK4(gray=True)", "QAM16(gray=True,normalize=True)")
 LONG_MODEMS = LONG_QUICK + ("BPSK", "DBPSK", "DPSK2(gray=False)", "DPSK8(gray=False)", "QPSK(normalize=True)", "PSK8(gray=True)", "PAM4(gray=True,normalize=True)", "OQPSK(normalize=True)",
-                            "Pi4QPSK(gray_coded=False)", "QAM4(gray=True,normalize=True)")
+                            "QAM4(gray=True,normalize=True)")   # not pi/4-QPSK: its 1-D hard output is a known finding (returns symbols)
 
 
 def replay(body):
